@@ -1,4 +1,124 @@
-import DDV.Gen.Lemmas.Tree
+/-
+  C04 — Every operation reaches the device at the mathematically defined address.
+-/
+import DDV.Gen.AddrSem
+import DDV.Props.C05
+
 namespace DDV.Props.C04
-theorem placeholder : True := trivial
+open DDV.Gen
+set_option linter.unusedVariables false
+set_option linter.unusedSimpArgs false
+
+/-- **One accessor.** For a valid index the emitted `base + ADDRESS (+|-) index * |STRIDE|` is
+    `base + address + index × stride` in the integers, negative strides included. -/
+theorem accessor_address (m : Method) (base : Int) (idx : Nat) (a : Int) (h : m.addrAt base idx = some a) :
+    a = base + m.address + (idx : Int) * m.strideOr0 := by
+  unfold Method.addrAt at h
+  unfold Method.strideOr0
+  cases hr : m.repeat_ with
+  | none =>
+    simp only [hr] at h
+    split at h
+    · cases h; simp
+    · cases h
+  | some r =>
+    simp only [hr] at h
+    split at h
+    · cases h
+      by_cases hs : r.stride < 0
+      · simp only [hs, if_true]
+        have : (r.stride.natAbs : Int) = -r.stride := by omega
+        rw [this, Int.mul_neg]; omega
+      · simp only [hs, if_false]
+        have : (r.stride.natAbs : Int) = r.stride := by omega
+        rw [this]
+    · cases h
+
+/-- **An index ≥ the repeat count panics before the interface is touched**: the accessor yields no
+    address (and hence no operation object) at all; a valid index always yields one. -/
+theorem invalid_index_panics_first (m : Method) (base : Int) (r : Repeat) (hr : m.repeat_ = some r)
+    (idx : Nat) : (m.addrAt base idx).isSome ↔ idx < r.count := by
+  unfold Method.addrAt
+  simp only [hr]
+  by_cases h : idx < r.count <;> simp [h]
+
+/-- **Chains of nested / repeated blocks.** The address handed on along any chain of accessor
+    calls with valid indices is the sum of `offset + index × stride` over the chain. -/
+theorem address_formula : ∀ (chain : List (Method × Nat)) (base a : Int),
+    evalChain chain base = some a → a = specChain chain base
+  | [], base, a, h => by unfold evalChain at h; unfold specChain; exact (Option.some.inj h).symm
+  | (m, i) :: rest, base, a, h => by
+    unfold evalChain at h
+    unfold specChain
+    cases hm : m.addrAt base i with
+    | none => rw [hm] at h; cases h
+    | some b =>
+      rw [hm] at h
+      simp only at h
+      have := accessor_address m base i b hm
+      rw [← this]
+      exact address_formula rest b a h
+
+/-- The chain succeeds exactly when every index is valid. -/
+theorem chain_defined_iff : ∀ (chain : List (Method × Nat)) (base : Int),
+    (evalChain chain base).isSome ↔ ∀ mi ∈ chain, (mi.1.addrAt 0 mi.2).isSome
+  | [], base => by simp [evalChain]
+  | (m, i) :: rest, base => by
+    unfold evalChain
+    have hindep : ∀ b, (m.addrAt b i).isSome = (m.addrAt 0 i).isSome := by
+      intro b; unfold Method.addrAt
+      cases m.repeat_ with
+      | none => by_cases h : i = 0 <;> simp [h]
+      | some r => by_cases h : i < r.count <;> simp [h]
+    cases hm : m.addrAt base i with
+    | none =>
+      have := hindep base
+      rw [hm] at this
+      simp only [Option.isSome_none, Bool.false_eq_true, List.mem_cons, forall_eq_or_imp, false_iff, not_and]
+      intro h; rw [← this] at h; cases h
+    | some b =>
+      have := hindep base
+      rw [hm] at this
+      simp only [List.mem_cons, forall_eq_or_imp]
+      rw [chain_defined_iff rest b]
+      constructor
+      · intro h; exact ⟨by rw [← this]; rfl, h⟩
+      · intro h; exact h.2
+
+/-- **The address is passed to the interface verbatim** (from C05/C09/C10: the operation objects
+    put exactly the address they were constructed with into every interface call). -/
+theorem operation_passes_address_verbatim (r : DDV.Proto.RegSpec) (f : DDV.Proto.Closure) (env : DDV.Proto.Env) :
+    (DDV.Proto.runBlocking (DDV.Proto.Register.write r f) env).1.log =
+      env.log ++ [.regWrite r.addr r.sizeBits (f r.reset).1] := by
+  rw [DDV.Props.C05.write_protocol]
+
+/-- **read_all_registers, root block**: the reported address is the address used on the bus. -/
+theorem read_all_reports_bus_address_root (m : Method) (idx : Nat) (a : Int)
+    (h : m.addrAt 0 idx = some a) : m.reportedAt idx = a := by
+  have := accessor_address m 0 idx a h
+  unfold Method.reportedAt
+  rw [this]; omega
+
+/-- The full statement "reported = used" for every block. It is **false** of the current tree
+    (finding F2): in a block constructed at a non-zero base the report omits the base. -/
+def ReadAllReportsBusAddress : Prop :=
+  ∀ (m : Method) (base : Int) (idx : Nat) (a : Int), m.addrAt base idx = some a → m.reportedAt idx = a
+
+theorem read_all_reports_relative_address (m : Method) (base : Int) (idx : Nat) (a : Int)
+    (h : m.addrAt base idx = some a) : m.reportedAt idx = a - base := by
+  have := accessor_address m base idx a h
+  unfold Method.reportedAt
+  rw [this]; omega
+
+theorem read_all_counterexample : ¬ ReadAllReportsBusAddress := by
+  intro h
+  have := h { cfg := none, name := "r", address := 1, allowAddressOverlap := false, repeat_ := none,
+              kind := .register } 10 0 11 (by decide)
+  revert this; decide
+
+example : evalChain [({ cfg := none, name := "blk", address := 16, allowAddressOverlap := false,
+                         repeat_ := some ⟨3, -4⟩, kind := .block }, 2),
+                     ({ cfg := none, name := "r", address := -1, allowAddressOverlap := false,
+                         repeat_ := none, kind := .register }, 0)] 0 = some 7 := by decide
+
 end DDV.Props.C04
